@@ -3,7 +3,7 @@
 
    The triple array depends on the bytes, not only on the decoded tree (a non-canonical length
    prefix changes atom_offset), so the reference is the grammar run with an atom reader that also
-   keeps the prefix length: an annotated tree [atree]. [erase] forgets the annotation and gives the
+   keeps the prefix length: an annotated tree [atree]. [aerase] forgets the annotation and gives the
    tree node_from_stream builds; [triples_of] / [hashes_of] are the arrays parse_triples must
    return, as plain structural recursions. The SaveEnd / SaveRightIndex in-place updates and the
    index arithmetic of the loop are shown to produce exactly these arrays; no panic site
@@ -16,8 +16,8 @@ Open Scope N_scope.
 
 Inductive atree := AAtom (off : N) (blob : bytes) | ACons (l r : atree).
 
-Fixpoint erase (a : atree) : sexp :=
-  match a with AAtom _ b => Atom b | ACons l r => Cons (erase l) (erase r) end.
+Fixpoint aerase (a : atree) : sexp :=
+  match a with AAtom _ b => Atom b | ACons l r => Cons (aerase l) (aerase r) end.
 (* number of input bytes the node spans *)
 Fixpoint alen (a : atree) : N :=
   match a with AAtom off b => off + blen b | ACons l r => 1 + alen l + alen r end.
@@ -58,7 +58,7 @@ Proof.
   rewrite app_length, IHl, IHr. reflexivity.
 Qed.
 
-Lemma acount_nodes : forall a, acount a = n_nodes (erase a).
+Lemma acount_nodes : forall a, acount a = n_nodes (aerase a).
 Proof. induction a as [off blob|l IHl r IHr]; cbn; [reflexivity|]. rewrite IHl, IHr. lia. Qed.
 
 Lemma subtrees_length : forall t, length (subtrees t) = n_nodes t.
@@ -108,7 +108,7 @@ Definition err_rel (ea en : errkind) : Prop :=
 
 Definition res_rel (x : res (atree * bytes)) (y : res (sexp * bytes)) : Prop :=
   match x, y with
-  | Ok (a, r), Ok (t, r') => t = erase a /\ r' = r
+  | Ok (a, r), Ok (t, r') => t = aerase a /\ r' = r
   | Err ea, Err en => err_rel ea en
   | _, _ => False
   end.
@@ -154,6 +154,197 @@ Qed.
 Theorem parse_a_rel : forall bs, res_rel (parse_a bs) (parse bs).
 Proof. intros bs. apply parse_rec_rel. Qed.
 
+(* ---------- reading the triple array back (the doc comment of ParsedTriple) ----------
+   blob[start] tells pair from atom; an atom's bytes are blob[start + atom_offset .. end]; a pair's
+   left child is the next index and its right child is right_index. *)
+Definition slice (bs : bytes) (from to : N) : bytes :=
+  firstn (N.to_nat (to - from)) (skipn (N.to_nat from) bs).
+
+Fixpoint tree_of_triples (fuel : nat) (bs : bytes) (ts : list triple) (i : nat) : option sexp :=
+  match fuel with
+  | O => None
+  | S f =>
+      match nth_error ts i with
+      | Some (TAtom s e off) => Some (Atom (slice bs (s + off) e))
+      | Some (TPair _ _ ri) =>
+          match tree_of_triples f bs ts (S i), tree_of_triples f bs ts (N.to_nat ri) with
+          | Some l, Some r => Some (Cons l r)
+          | _, _ => None
+          end
+      | None => None
+      end
+  end.
+
+Definition triple_span (t : triple) : N * N :=
+  match t with TAtom s e _ => (s, e) | TPair s e _ => (s, e) end.
+
+(* the bytes an annotated node was read from *)
+Fixpoint layout (a : atree) (e : bytes) : Prop :=
+  match a with
+  | AAtom off blob => exists p, e = p ++ blob /\ blen p = off
+  | ACons l r => exists e1 e2, e = 255 :: e1 ++ e2 /\ layout l e1 /\ layout r e2
+  end.
+
+Lemma layout_len : forall a e, layout a e -> blen e = alen a.
+Proof.
+  induction a as [off blob|l IHl r IHr]; intros e; cbn [layout alen].
+  - intros (p & -> & <-). apply blen_app.
+  - intros (e1 & e2 & -> & L1 & L2). apply IHl in L1. apply IHr in L2.
+    unfold blen in *. cbn [length]. rewrite app_length. lia.
+Qed.
+
+Lemma land128_testbit b : N.land b 128 <> 0 -> N.testbit b 7 = true.
+Proof.
+  intros Hn. destruct (N.testbit b 7) eqn:E; [reflexivity|]. exfalso. apply Hn.
+  apply N.bits_inj. intros n. rewrite N.land_spec, N.bits_0. change 128 with (2 ^ 7).
+  rewrite N.pow2_bits_eqb. destruct (N.eqb_spec 7 n) as [<-|]; [rewrite E; reflexivity|apply andb_false_r].
+Qed.
+
+Lemma decode_size_wo_prefix b r k size r1 : decode_size_with_offset b r = Ok (k, size, r1) ->
+  exists m, r = m ++ r1 /\ blen (b :: m) = k.
+Proof.
+  intros Hd. unfold decode_size_with_offset in Hd.
+  destruct (N.eqb_spec (N.land b 128) 0) as [|N80]; [discriminate|].
+  destruct (8 <=? leading_ones8 b); [discriminate|].
+  destruct (take_exact (N.to_nat (leading_ones8 b - 1)) r) as [[more r']|] eqn:Et; [|discriminate].
+  destruct (6 <? leading_ones8 b); [discriminate|]. cbv zeta in Hd.
+  destruct (_ <=? _); [discriminate|].
+  assert (Ek : leading_ones8 b = k) by congruence. assert (Er : r' = r1) by congruence. subst r'.
+  apply take_exact_spec in Et. destruct Et as [-> Hl]. exists more. split; [reflexivity|].
+  assert (1 <= leading_ones8 b).
+  { unfold leading_ones8. cbn [leading_ones_from8]. rewrite (land128_testbit b N80). lia. }
+  unfold blen. cbn [length]. lia.
+Qed.
+
+Lemma read_atom_a_layout b r a rest : read_atom_a b r = Ok (a, rest) ->
+  exists e, b :: r = e ++ rest /\ layout a e.
+Proof.
+  unfold read_atom_a. destruct (b <=? 127).
+  { intros Hp. assert (AAtom 0 [b] = a) by congruence. assert (r = rest) by congruence. subst a r.
+    exists [b]. split; [reflexivity|]. exists []. split; reflexivity. }
+  destruct (decode_size_with_offset b r) as [[[off size] r1]|] eqn:Ed; cbn [bind]; [|discriminate].
+  destruct (take_n size r1) as [[blob r2]|] eqn:Et; [|discriminate].
+  intros Hp. assert (AAtom off blob = a) by congruence. assert (r2 = rest) by congruence. subst a r2.
+  destruct (decode_size_wo_prefix _ _ _ _ _ Ed) as (m & -> & Hm).
+  apply take_n_spec in Et. destruct Et as [-> _].
+  exists ((b :: m) ++ blob). split; [cbn; rewrite <- app_assoc; reflexivity|].
+  exists (b :: m). split; [reflexivity|assumption].
+Qed.
+
+Lemma parse_ra_layout : forall f bs a rest, parse_rec read_atom_a ACons f bs = Ok (a, rest) ->
+  exists e, bs = e ++ rest /\ layout a e.
+Proof.
+  induction f as [|f IH]; intros bs a rest Hp; cbn in Hp; [discriminate|].
+  destruct bs as [|b r]; [discriminate|].
+  destruct (N.eqb_spec b 255) as [Eb|Nb].
+  - destruct (parse_rec _ _ f r) as [[l r1]|] eqn:E1; cbn in Hp; [|discriminate].
+    destruct (parse_rec _ _ f r1) as [[rt r2]|] eqn:E2; cbn in Hp; [|discriminate].
+    assert (ACons l rt = a) by congruence. assert (r2 = rest) by congruence. subst a r2.
+    destruct (IH _ _ _ E1) as (e1 & -> & L1). destruct (IH _ _ _ E2) as (e2 & -> & L2).
+    exists (255 :: e1 ++ e2). split; [subst b; cbn; rewrite <- app_assoc; reflexivity|].
+    exists e1, e2. split; [reflexivity|]. split; assumption.
+  - apply read_atom_a_layout; assumption.
+Qed.
+
+Lemma slice_mid x y z from to : blen x = from -> to = from + blen y -> slice (x ++ y ++ z) from to = y.
+Proof.
+  intros Hx ->. unfold slice. replace (from + blen y - from) with (blen y) by lia.
+  subst from. unfold blen. rewrite !Nat2N.id.
+  rewrite skipn_app, skipn_all, Nat.sub_diag. cbn [skipn app].
+  rewrite firstn_app, firstn_all, Nat.sub_diag. cbn [firstn]. apply app_nil_r.
+Qed.
+
+Lemma tree_of_triples_spec : forall a e, layout a e ->
+  forall fuel pre post tpre tpost start base, (acount a <= fuel)%nat ->
+    blen pre = start -> length tpre = base ->
+    tree_of_triples fuel (pre ++ e ++ post) (tpre ++ triples_of a start base ++ tpost) base
+      = Some (aerase a).
+Proof.
+  induction a as [off blob|l IHl r IHr]; intros e Hl fuel pre post tpre tpost start base Hf Hpre Hb;
+    cbn [layout] in Hl.
+  - destruct Hl as (p & -> & Hp). destruct fuel as [|fuel]; [cbn in Hf; lia|].
+    cbn [tree_of_triples triples_of app]. rewrite (nth_error_mid tpre _ _ base (eq_sym Hb)).
+    cbn [aerase]. f_equal. f_equal.
+    rewrite <- app_assoc. rewrite (app_assoc pre p). apply slice_mid; [rewrite blen_app; lia|lia].
+  - destruct Hl as (e1 & e2 & -> & L1 & L2). destruct fuel as [|fuel]; [cbn in Hf; lia|].
+    cbn [acount] in Hf.
+    cbn [tree_of_triples triples_of app]. rewrite (nth_error_mid tpre _ _ base (eq_sym Hb)).
+    pose proof (layout_len _ _ L1) as Len1.
+    (* left child: next index, one byte further *)
+    assert (HL : tree_of_triples fuel (pre ++ 255 :: (e1 ++ e2) ++ post)
+                   (tpre ++ TPair start (start + (1 + alen l + alen r)) (N.of_nat (S base + acount l))
+                         :: (triples_of l (start + 1) (S base) ++ triples_of r (start + 1 + alen l) (S base + acount l)) ++ tpost)
+                   (S base) = Some (aerase l)).
+    { replace (pre ++ 255 :: (e1 ++ e2) ++ post) with ((pre ++ [255]) ++ e1 ++ (e2 ++ post))
+        by (cbn; rewrite <- !app_assoc; reflexivity).
+      replace (tpre ++ TPair start (start + (1 + alen l + alen r)) (N.of_nat (S base + acount l))
+                 :: (triples_of l (start + 1) (S base) ++ triples_of r (start + 1 + alen l) (S base + acount l)) ++ tpost)
+        with ((tpre ++ [TPair start (start + (1 + alen l + alen r)) (N.of_nat (S base + acount l))])
+                ++ triples_of l (start + 1) (S base) ++ (triples_of r (start + 1 + alen l) (S base + acount l) ++ tpost))
+        by (cbn; rewrite <- !app_assoc; reflexivity).
+      apply IHl; [assumption|lia|rewrite blen_app; change (blen [255]) with 1; lia|
+                  rewrite app_length; cbn [length]; lia]. }
+    rewrite HL.
+    assert (HR : tree_of_triples fuel (pre ++ 255 :: (e1 ++ e2) ++ post)
+                   (tpre ++ TPair start (start + (1 + alen l + alen r)) (N.of_nat (S base + acount l))
+                         :: (triples_of l (start + 1) (S base) ++ triples_of r (start + 1 + alen l) (S base + acount l)) ++ tpost)
+                   (N.to_nat (N.of_nat (S base + acount l))) = Some (aerase r)).
+    { rewrite Nat2N.id.
+      replace (pre ++ 255 :: (e1 ++ e2) ++ post) with ((pre ++ 255 :: e1) ++ e2 ++ post)
+        by (cbn; rewrite <- !app_assoc; reflexivity).
+      replace (tpre ++ TPair start (start + (1 + alen l + alen r)) (N.of_nat (S base + acount l))
+                 :: (triples_of l (start + 1) (S base) ++ triples_of r (start + 1 + alen l) (S base + acount l)) ++ tpost)
+        with ((tpre ++ TPair start (start + (1 + alen l + alen r)) (N.of_nat (S base + acount l))
+                 :: triples_of l (start + 1) (S base))
+                ++ triples_of r (start + 1 + alen l) (S base + acount l) ++ tpost)
+        by (cbn; rewrite <- !app_assoc; reflexivity).
+      apply IHr; [assumption|lia| |rewrite app_length; cbn [length]; rewrite triples_of_length; lia].
+      rewrite blen_app. unfold blen in *. cbn [length]. lia. }
+    rewrite HR. reflexivity.
+Qed.
+
+(* ---------- size of what the decoders build, against the bytes they consumed ---------- *)
+Fixpoint atom_bytes (t : sexp) : nat :=
+  match t with Atom b => length b | Cons l r => (atom_bytes l + atom_bytes r)%nat end.
+
+Lemma read_atom_node_bounded b r a rest : read_atom_node b r = Ok (Atom a, rest) ->
+  (length rest <= length r /\ length a <= S (length r) - length rest)%nat.
+Proof.
+  unfold read_atom_node, parse_atom_node.
+  destruct (b =? 1); [cbn [bind]; intros Hp; assert ([1] = a /\ r = rest) as [<- <-] by (split; congruence); cbn [length]; lia|].
+  destruct (b =? 128); [cbn [bind]; intros Hp; assert ([] = a /\ r = rest) as [<- <-] by (split; congruence); cbn [length]; lia|].
+  destruct (b <=? 127); [cbn [bind]; intros Hp; assert ([b] = a /\ r = rest) as [<- <-] by (split; congruence); cbn [length]; lia|].
+  destruct (decode_size b r) as [[size r0]|] eqn:E; cbn [bind]; [|discriminate].
+  apply decode_size_shrinks in E.
+  destruct (take_n size r0) as [[blob r1]|] eqn:Et; cbn [bind]; [|discriminate].
+  intros Hp. assert (blob = a /\ r1 = rest) as [<- <-] by (split; congruence).
+  apply take_n_spec in Et. destruct Et as [-> _]. rewrite app_length in E. lia.
+Qed.
+
+Lemma parse_rec_bounded : forall f bs t rest, parse_rec read_atom_node Cons f bs = Ok (t, rest) ->
+  (length rest < length bs /\ n_nodes t <= length bs - length rest /\
+   atom_bytes t <= length bs - length rest)%nat.
+Proof.
+  induction f as [|f IH]; intros bs t rest Hp; cbn in Hp; [discriminate|].
+  destruct bs as [|b r]; [discriminate|].
+  destruct (b =? 255).
+  - destruct (parse_rec _ _ f r) as [[l r1]|] eqn:E1; cbn in Hp; [|discriminate].
+    destruct (parse_rec _ _ f r1) as [[rt r2]|] eqn:E2; cbn in Hp; [|discriminate].
+    assert (Cons l rt = t /\ r2 = rest) as [<- <-] by (split; congruence).
+    apply IH in E1. apply IH in E2. cbn [length n_nodes atom_bytes]. lia.
+  - pose proof Hp as Hp'. unfold read_atom_node in Hp'.
+    destruct (parse_atom_node b r) as [[a r']|]; cbn in Hp'; [|discriminate].
+    assert (Atom a = t) by congruence. subst t.
+    apply read_atom_node_bounded in Hp. cbn [length n_nodes atom_bytes]. lia.
+Qed.
+
+(* no decoder builds more than it read: at most one node and one atom byte per input byte *)
+Theorem decode_output_bounded : forall bs t rest, node_from_stream bs = Ok (t, rest) ->
+  (n_nodes t <= length bs - length rest /\ atom_bytes t <= length bs - length rest)%nat.
+Proof.
+  intros bs t rest Hn. rewrite node_from_stream_parse in Hn. apply parse_rec_bounded in Hn. tauto.
+Qed.
+
 (* ---------- the loop ---------- *)
 Section Loop.
   Variable H : bytes -> bytes.
@@ -163,10 +354,10 @@ Section Loop.
     match a with
     | AAtom _ blob => [H (1 :: blob)]
     | ACons l r =>
-        H (2 :: treehash H (erase l) ++ treehash H (erase r)) :: hashes_of l ++ hashes_of r
+        H (2 :: treehash H (aerase l) ++ treehash H (aerase r)) :: hashes_of l ++ hashes_of r
     end.
 
-  Lemma hashes_of_cons a : exists t, hashes_of a = treehash H (erase a) :: t.
+  Lemma hashes_of_cons a : exists t, hashes_of a = treehash H (aerase a) :: t.
   Proof. destruct a as [off blob|l r]; cbn; eexists; reflexivity. Qed.
 
   Lemma hashes_of_length : forall a, length (hashes_of a) = acount a.
@@ -175,7 +366,7 @@ Section Loop.
     rewrite app_length, IHl, IHr. reflexivity.
   Qed.
 
-  Lemma hashes_of_subtrees : forall a, hashes_of a = map (treehash H) (subtrees (erase a)).
+  Lemma hashes_of_subtrees : forall a, hashes_of a = map (treehash H) (subtrees (aerase a)).
   Proof.
     induction a as [off blob|l IHl r IHr]; cbn; [reflexivity|].
     rewrite map_app, IHl, IHr. reflexivity.
@@ -308,7 +499,7 @@ Section Loop.
   Theorem parse_triples_agrees : forall bs,
     match node_from_stream bs with
     | Ok (t, rest) =>
-        exists a, erase a = t /\ parse_triples H bs = Ok (triples_of a 0 0, hashes_of a, rest)
+        exists a, aerase a = t /\ parse_triples H bs = Ok (triples_of a 0 0, hashes_of a, rest)
     | Err e =>
         exists e', parse_triples H bs = Err e' /\
                    (e' = e \/ (e' = InternalError 2 /\ e = SerializationError))
@@ -339,7 +530,7 @@ Section Loop.
     destruct (node_from_stream bs) as [[t r]|e].
     - destruct Ha as (a & <- & Ht). rewrite Ht in Hp.
       assert (E1 : triples_of a 0 0 = ts) by congruence. assert (E2 : hashes_of a = hs) by congruence.
-      assert (E3 : r = rest) by congruence. subst ts hs r. exists (erase a).
+      assert (E3 : r = rest) by congruence. subst ts hs r. exists (aerase a).
       split; [reflexivity|]. split; [apply hashes_of_subtrees|].
       rewrite triples_of_length. apply acount_nodes.
     - destruct Ha as (e' & He & _). rewrite He in Hp. discriminate.
@@ -353,5 +544,30 @@ Section Loop.
     rewrite (node_from_stream_ser t e rest Hwf Hs) in Ha. destruct Ha as (a & Ea & Ht).
     exists (triples_of a 0 0). rewrite Ht, hashes_of_subtrees, Ea. split; [reflexivity|].
     rewrite triples_of_length, acount_nodes, Ea. reflexivity.
+  Qed.
+
+  (* an accepted input: the returned array, read back against the input the way ParsedTriple's
+     documentation says, is the tree node_from_stream builds; the root triple spans exactly the
+     consumed bytes *)
+  Theorem parse_triples_describe : forall bs ts hs rest, parse_triples H bs = Ok (ts, hs, rest) ->
+    exists t, node_from_stream bs = Ok (t, rest) /\
+              tree_of_triples (length ts) bs ts 0 = Some t /\
+              exists t0, nth_error ts 0 = Some t0 /\ triple_span t0 = (0, blen bs - blen rest).
+  Proof.
+    intros bs ts hs rest Hp. rewrite parse_triples_refines in Hp.
+    pose proof (parse_a_rel bs) as Hr. unfold parse_a in Hp, Hr.
+    destruct (parse_ra (S (length bs)) bs) as [[a rest']|] eqn:E; [|discriminate].
+    assert (E1 : triples_of a 0 0 = ts) by congruence. assert (E3 : rest' = rest) by congruence.
+    subst ts rest'. unfold res_rel in Hr. rewrite node_from_stream_parse.
+    destruct (parse bs) as [[t r']|]; [|contradiction]. destruct Hr as [-> ->].
+    exists (aerase a). split; [reflexivity|].
+    destruct (parse_ra_layout _ _ _ _ E) as (e & Hbs & Hl).
+    pose proof (layout_len _ _ Hl) as Hlen. split.
+    - rewrite triples_of_length.
+      pose proof (tree_of_triples_spec a e Hl (acount a) [] rest [] [] 0 0%nat (le_n _) eq_refl eq_refl) as Hs.
+      cbn [app] in Hs. rewrite app_nil_r in Hs. rewrite <- Hbs in Hs. exact Hs.
+    - subst bs. rewrite blen_app. replace (blen e + blen rest - blen rest) with (blen e) by lia.
+      rewrite Hlen. destruct a as [off blob|l rt]; cbn [triples_of nth_error alen]; eexists; (split; [reflexivity|]);
+        cbn [triple_span]; f_equal; lia.
   Qed.
 End Loop.
